@@ -21,12 +21,12 @@ import (
 )
 
 type Case struct {
-	Doc       Doc    `json:"doc"`
-	Keep      Keep   `json:"keep"`
-	KeepTags  bool   `json:"keep_tags"`
+	Doc      Doc  `json:"doc"`
+	Keep     Keep `json:"keep"`
+	KeepTags bool `json:"keep_tags"`
 	// ReadFirst: the state of the reader when it is handed over. 0: at the start; 1: read to the end before (as after
 	// CountTags or a checksum pass over the same reader); 2: a third of the way in
-	ReadFirst int `json:"read_first,omitempty"`
+	ReadFirst int    `json:"read_first,omitempty"`
 	IDKind    string `json:"id_kind,omitempty"` // ids mapped to negative or huge values (documentation of the generator's choice)
 	Engine    string `json:"engine"`            // sched (owned scheduler) | plain (no hook, repeated) | filter
 	Procs     int    `json:"procs"`
